@@ -13,8 +13,23 @@ def run(tier, replay=None):
         rp = json.load(open(replay))
         vectors = [rp['vector']]
         stats, sv = {}, {}
+        corpus = None
     else:
         corpus, sv, vectors, stats = V.build(tier)
+    if not replay and corpus is not None:
+        # encodings whose length sits at the edges of the header forms (elastic WARDEN_DATA; `u32 n; T[n]` messages beyond 64 KiB)
+        from monitors import seqs as S
+        for version in ('vanilla', 'tbc', 'wrath'):
+            for d in ('client', 'server'):
+                # the top two lengths of the 2-byte server form make the writers panic (C02's known finding size-u16-overflow-top-of-range)
+                lim = min(S.max_body(version, d) - (2 if d == 'server' else 0), 10240 - 6 if d == 'client' else 1 << 30)
+                for L in sorted({0, 1, 255, 256, lim} | set(range(0x7FF8, 0x8006)) | set(range(0xFFF8, 0xFFFE))):
+                    if L <= lim and not (version == 'wrath' and d == 'server' and L > 0xFFFD):   # known: Wrath size model capped at 64 KiB
+                        vectors.append({**S.warden_vector(corpus, version, d, L), 'kind': 'edge'})
+        for c in S.elastic_messages(corpus, 'wrath', 'server'):
+            w = S.ELEM_WIDTH[c.raw['members'][1]['ty']]
+            for n in ((0x10000 - 4) // w, (0x10000 - 4) // w + 1, 80000 // w):
+                vectors.append({**S.elastic_vector(corpus, 'wrath', 'server', c, n), 'kind': 'edge'})
     binary = common.cargo_build('codec_driver')
     ev = common.run_driver(binary, (V.driver_row(v) for v in vectors), 'c01')
     # the typed entry points: expect_{client,server}_message::<M> (login and world) and read_initial_message
